@@ -99,7 +99,7 @@ def run(rep, tier, seed, model_ok=True, effort=1):
         kw = dict(commit_message=msg, tag_message=r.choice([None, "{new_version}", "tag {when}"]) if use_vcs or r.random() < 0.3 else None,
                   commit=use_vcs, tag=use_vcs, push=use_vcs, vcs="fakegit" if use_vcs else None,
                   vcs_cfg=dict(tags=[], status="", remote="origin") if use_vcs else None, hooks={"pre": "ok"} if use_vcs else None)
-        nd = spec["date"] + dt.timedelta(days=r.choice([1, 400]))
+        nd = rwgen.avoid_week53(spec["vp"], spec["date"] + dt.timedelta(days=r.choice([1, 400])))
         use_fetch = use_vcs and r.random() < 0.5
         args = ["update", "--fetch" if use_fetch else "--no-fetch", "--date", nd.isoformat()] + spec["flags"]
         if use_fetch:
@@ -110,7 +110,7 @@ def run(rep, tier, seed, model_ok=True, effort=1):
                 newer = None
             if newer:
                 kw["vcs_cfg"] = dict(kw["vcs_cfg"], tags_after_fetch=[newer])
-                nd = spec["date"] + dt.timedelta(days=900)
+                nd = rwgen.avoid_week53(spec["vp"], spec["date"] + dt.timedelta(days=900))
                 args[3] = nd.isoformat()
         # a file whose text is stale (older than the configured current version) must appear in the dry diff exactly as the real run rewrites it
         stale_file = None
